@@ -165,6 +165,10 @@ def walk(o):
     return o.__class__.__name__
 
 
+def pkg_text(d):
+    return ";".join("%s=%s" % (".".join(k[1:]), walk(v)) for k, v in sorted(d.items()))
+
+
 def plugin_key_text(p):
     parts = [walk(p.state)]
     for k, v in sorted(p.__dict__.items()):
@@ -295,6 +299,7 @@ class World(object):
         self.uuid = H.Uuid()
         self.pm = H.PluginManager()
         self.comm = H.Comm()
+        self.pkg = H.pristine_pkg_state()      # module-level / class-level state of the package, owned by this world
         self.install()
         self.plugin = H.new_plugin(self.sv, self.pm)
         # reference models -------------------------------------------------------------------
@@ -325,9 +330,11 @@ class World(object):
             ox, oy = cfg.get("origin", (10, 10))
             self.f.update(x=Fr(ox), y=Fr(oy), z=Fr(1))
         self.pm.msgs = []
+        self.pkg = H.capture_pkg_state()
 
     def install(self):
         H.install_uuid(self.uuid)
+        H.install_pkg_state(self.pkg)
 
     # ------------------------------------------------------------------------------ snapshots
     def __getstate__(self):
@@ -371,10 +378,14 @@ class World(object):
         h = hashlib.blake2b(digest_size=16)
         h.update(plugin_key_text(self.plugin).encode())
         h.update(repr(self.model_key()).encode())
+        h.update(self.pkg_key_text().encode())
         return h.digest()
 
+    def pkg_key_text(self):
+        return pkg_text(self.pkg)
+
     def impl_key(self):
-        return hashlib.blake2b(plugin_key_text(self.plugin).encode(), digest_size=16).digest()
+        return hashlib.blake2b((plugin_key_text(self.plugin) + "#" + self.pkg_key_text()).encode(), digest_size=16).digest()
 
     # ------------------------------------------------------------------------------ helpers
     def viol(self, msg, detail=None):
@@ -622,6 +633,14 @@ class World(object):
     # ------------------------------------------------------------------------------ stepping
     def step(self, ev):
         self.install()
+        try:
+            return self._step(ev)
+        finally:
+            if ev[0] in ("C10CHECK", "TRACKPROBE"):
+                self.install()           # probes work on copies, which install their own package state
+            self.pkg = H.capture_pkg_state()
+
+    def _step(self, ev):
         H.set_user(False)
         st = Step(ev)
         self.pm.msgs = []
@@ -1031,17 +1050,20 @@ class World(object):
         used = World.restore(snap, self.cfg)
         payload = self.cfg.get("c10_payload")
         used._event("PRINT_STARTED", Step(None), payload=payload)
+        used.pkg = H.capture_pkg_state()
         # a freshly initialised plugin given the same regions and settings
         sv = pickle.loads(pickle.dumps(self.sv))
         pm = H.PluginManager()
         H.install_uuid(H.Uuid(1000))
+        H.reset_pkg_state()               # a freshly started OctoPrint: import-time state of the package
         fresh = H.new_plugin(sv, pm)
         H.set_user(False)
         for r in self.m_regions:
             fresh.on_api_command("addExcludeRegion", dict(r))
         fresh.on_event(H.Events.PRINT_STARTED, dict(payload) if payload else {})
+        fpkg = dumps(H.capture_pkg_state())
         self.install()
-        ku, kf = plugin_key_text(used.plugin), plugin_key_text(fresh)
+        ku, kf = plugin_key_text(used.plugin) + used.pkg_key_text(), plugin_key_text(fresh) + pkg_text(loads(fpkg))
         # The property is behavioural ("its output equals that of a freshly initialised plugin").  Equal
         # canonical states have equal behaviour, so the probe programs are run once per distinct pair of
         # states; a state difference alone is not reported, it only makes the probing one level deeper.
@@ -1079,7 +1101,9 @@ class World(object):
                 fp = H.PKG.ExcludeRegionPlugin.__new__(H.PKG.ExcludeRegionPlugin)
                 fp.__dict__.update(loads(fsnap))
                 fp._settings = _shared_settings()
-                a, b = run(up, prog), run(fp, prog)
+                a = run(up, prog)
+                H.install_pkg_state(loads(fpkg))
+                b = run(fp, prog)
                 n += 1
                 if a != b:
                     i = [x != y for x, y in zip(a, b)].index(True)
